@@ -125,7 +125,13 @@ class FileServer(Resource, aiocoap.interfaces.ObservableResource):
         if any("/" in p or p in (".", "..") for p in path):
             raise InvalidPathError()
 
-        return self.root / "/".join(path)
+        relative = "/".join(path)
+        if relative.startswith("/"):
+            # A leading empty component would make the joined path absolute,
+            # and joining an absolute path discards the root
+            raise InvalidPathError()
+
+        return self.root / relative
 
     async def needs_blockwise_assembly(self, request):
         if request.code != codes.GET:
